@@ -318,3 +318,8 @@ def _isidentifier(ip, a, kw, node):
 
 R.EXTERNALS["builtins.str.isidentifier"] = R.ExtFn(_isidentifier)
 R.EXTERNALS["keyword.iskeyword"] = R.ExtFn(lambda ip, a, kw, node: ZB(is_keyword(as_v(a[0]))))
+
+R.METHODS[("str", "isidentifier")] = lambda ip, r, a, kw, node: ZB(is_identifier(as_v(r)))
+nfkc = L.fn("unicode_normalize", L.V, L.V, L.V)       # unicodedata.normalize(form, s): text, uninterpreted
+R.EXTERNALS["unicodedata.normalize"] = R.ExtFn(lambda ip, a, kw, node: ZV(nfkc(as_v(a[0]), as_v(a[1])), "str"))
+R.SPEC["nfkc_"] = SpecFn(lambda ip, a_, kw: ZV(nfkc(as_v(PyC("NFKC")), as_v(a_[0])), "str"), "nfkc_")
